@@ -60,8 +60,8 @@ fn main() {
             let now = started.elapsed().as_millis() as u64;
             for (w, h) in hb.iter().enumerate() {
                 let t = h.load(Ordering::Relaxed);
-                if t != 0 && now > t + 180_000 {
-                    eprintln!("INCONCLUSIVE: worker {} spent more than 180 s in one case (hang or resource exhaustion)", w);
+                if t != 0 && now > t + 600_000 {
+                    eprintln!("INCONCLUSIVE: worker {} spent more than 600 s in one case (hang or resource exhaustion)", w);
                     std::process::exit(2);
                 }
             }
